@@ -299,6 +299,19 @@ func (s *Scope) evalBin(e *Expr) *Val {
 				return &Val{K: KScalar, T: sexp(SInt, "div", x, IntLit(pow2(int(y.C.Int64())))), Ty: ty}
 			}
 		}
+		if ty != nil && c.intMode {
+			// the same uninterpreted function the executable code gets in arith int mode
+			if w, _, isInt := intInfo(ty); isInt {
+				switch e.Name {
+				case "|":
+					return &Val{K: KScalar, T: c.UF(fmt.Sprintf("int.or.%d", w), SInt, x, y), Ty: ty}
+				case "&":
+					return &Val{K: KScalar, T: c.UF(fmt.Sprintf("int.and.%d", w), SInt, x, y), Ty: ty}
+				case "^":
+					return &Val{K: KScalar, T: c.UF(fmt.Sprintf("int.xor.%d", w), SInt, x, y), Ty: ty}
+				}
+			}
+		}
 		panic(sfail("operator %s not available on mathematical integers", e.Name))
 	}
 	if x.Sort == SStr && y.Sort == SStr && e.Name == "+" {
@@ -810,6 +823,33 @@ func (s *Scope) evalCall(e *Expr) *Val {
 			panic(sfail("unknown type %s", want))
 		}
 		return scalar(Eq(a.Tag, c.typeTag(tt)), boolT)
+	case "loopfree":
+		// loopfree(e): the value of e does not depend on what earlier iterations of the enclosing loops left
+		// in loop-carried variables (other than the induction variable)
+		if s.fr == nil {
+			panic(sfail("loopfree: only at a site inside the function"))
+		}
+		v := argv(0)
+		var parts []Term
+		for _, t := range valTerms(v) {
+			parts = append(parts, s.fr.loopFree(t))
+		}
+		return scalar(And(parts...), boolT)
+	case "isaexec":
+		// isaexec(): the wavefront's EXEC mask (abstract architectural state behind InstEmuState) at this point
+		return scalar(c.ghost(s.st, "G_exec"), types.Typ[types.Uint64])
+	case "lastarg":
+		// lastarg("Method", k): argument k of the latest call of an extern interface method on this path
+		// (unconstrained where no such call precedes)
+		k := argv(1)
+		if k.T.C == nil {
+			panic(sfail("lastarg: constant argument number expected"))
+		}
+		v := c.lastArg(s.st, e.Args[0].Name, int(k.T.C.Int64()))
+		if v == nil {
+			panic(sfail("lastarg: the function makes no call of extern method %s with argument %d", e.Args[0].Name, k.T.C.Int64()))
+		}
+		return v
 	case "atloop":
 		// atloop(k, e): the value of e in the state in which loop k was entered
 		k := argv(0)
@@ -921,6 +961,35 @@ func (s *Scope) evalCall(e *Expr) *Val {
 		}
 		// spec functions may also see the caller's heap and ghosts, not its locals
 		return n.eval(sf.Body)
+	}
+	// package-level pure extern function, written by its bare name: f(x, ...)
+	if len(e.Args) >= 1 {
+		scope := ""
+		if s.fr != nil {
+			scope = s.fr.scopePkg()
+		}
+		for path, p := range c.W.pkgs {
+			fn := p.Func(e.Name)
+			if fn == nil || fn.Signature.Recv() != nil {
+				continue
+			}
+			key := shortPkg(path) + "." + e.Name
+			ek, ok := c.W.externKey(scope, key)
+			if !ok || !c.W.externPure[ek] || fn.Signature.Params().Len() != len(e.Args) {
+				continue
+			}
+			var args []*Val
+			for i := range e.Args {
+				a := argv(i)
+				if a.K == KScalar {
+					_, a = s.coerceTo(a, fn.Signature.Params().At(i).Type())
+				}
+				args = append(args, a)
+			}
+			if r := c.pureExtern(key, args[0], args[1:], resultTypeOfSig(fn.Signature)); r != nil {
+				return r
+			}
+		}
 	}
 	// pure accessor of an external interface, written f(x) or x.f() -> call with receiver first
 	if len(e.Args) >= 1 {
